@@ -255,6 +255,180 @@ pub fn large_histories(thorough: bool) -> Vec<History> {
     out
 }
 
+// ---------------------------------------------------------------------------
+// very deep trees, in a child process (a stack overflow cannot be caught in-process)
+
+#[derive(Clone, Debug, Serialize, Deserialize)]
+pub struct DeepCase {
+    pub depth: usize,
+    /// clone_within | clone_into_external | clone_multiple | transfer | transfer_within | destroy | descendants | raw
+    pub op: String,
+}
+
+fn deep_owner(op: &str) -> &'static str {
+    match op {
+        "clone_within" | "clone_into_external" | "clone_multiple" => "c11",
+        "transfer" | "transfer_within" => "c10",
+        _ => "c09",
+    }
+}
+
+/// Child side: a chain of `depth` instances (each with a Ref to its parent), one operation, an
+/// iterative check of the outcome. Prints `OK` or `FAIL <key> <message>`.
+pub fn deepdom_main(args: &[String]) -> ! {
+    use rbx_dom_weak::{InstanceBuilder, WeakDom};
+    use rbx_types::{Ref, Variant};
+    let depth: usize = args.first().and_then(|s| s.parse().ok()).unwrap_or(1000);
+    let op = args.get(1).cloned().unwrap_or_default();
+    let owner = deep_owner(&op);
+    let verdict = (|| -> Result<(), String> {
+        let mut dom = WeakDom::new(InstanceBuilder::new("DataModel"));
+        let mut chain: Vec<Ref> = Vec::with_capacity(depth);
+        let mut parent = dom.root_ref();
+        for i in 0..depth {
+            let r = dom.insert(parent, InstanceBuilder::new("Folder").with_name(format!("n{i}")).with_property("Up", Variant::Ref(parent)));
+            chain.push(r);
+            parent = r;
+        }
+        let top = chain[0];
+        // walk a chain downwards from `start` in `d`: names n0.., each node's Up = its parent in the copy
+        let walk = |d: &WeakDom, start: Ref, expect_up_of_first: Option<Ref>| -> Result<usize, String> {
+            let mut cur = start;
+            let mut prev: Option<Ref> = None;
+            let mut n = 0usize;
+            loop {
+                let inst = d.get_by_ref(cur).ok_or_else(|| format!("instance #{n} of the chain cannot be looked up"))?;
+                if inst.name != format!("n{n}") {
+                    return Err(format!("instance #{n} of the chain is named {}", inst.name));
+                }
+                let up = match inst.properties.get(&rbx_dom_weak::ustr("Up")) {
+                    Some(Variant::Ref(r)) => *r,
+                    other => return Err(format!("instance #{n}: Up is {other:?}")),
+                };
+                match (prev, expect_up_of_first) {
+                    (Some(p), _) if up != p => return Err(format!("instance #{n}: Up does not point at its parent in the same chain")),
+                    (None, Some(e)) if up != e => return Err(format!("the first instance's Up is {up}, expected {e}")),
+                    _ => {}
+                }
+                n += 1;
+                match inst.children() {
+                    [] => return Ok(n),
+                    [c] => {
+                        prev = Some(cur);
+                        cur = *c;
+                    }
+                    more => return Err(format!("instance #{} has {} children", n - 1, more.len())),
+                }
+            }
+        };
+        match op.as_str() {
+            "clone_within" => {
+                let c = dom.clone_within(top);
+                let n = walk(&dom, c, Some(dom.root_ref()))?;
+                if n != depth {
+                    return Err(format!("clone has {n} of {depth} instances"));
+                }
+                if walk(&dom, top, Some(dom.root_ref()))? != depth {
+                    return Err("source changed".into());
+                }
+            }
+            "clone_into_external" => {
+                let mut other = WeakDom::new(InstanceBuilder::new("DataModel"));
+                let c = dom.clone_into_external(top, &mut other);
+                // the root of the source is not in the destination: the first Up becomes null
+                let n = walk(&other, c, Some(Ref::none()))?;
+                if n != depth {
+                    return Err(format!("clone has {n} of {depth} instances"));
+                }
+            }
+            "clone_multiple" => {
+                let mut other = WeakDom::new(InstanceBuilder::new("DataModel"));
+                let mid = chain[depth / 2];
+                // two disjoint subtrees are needed: detach the lower half first
+                dom.transfer_within(mid, dom.root_ref());
+                let out = dom.clone_multiple_into_external(&[top, mid], &mut other);
+                if out.len() != 2 {
+                    return Err(format!("{} roots returned", out.len()));
+                }
+                let total: usize = out.iter().map(|r| other.descendants_of(*r).count()).sum();
+                if total != depth {
+                    return Err(format!("clones have {total} of {depth} instances"));
+                }
+            }
+            "transfer" => {
+                let mut other = WeakDom::new(InstanceBuilder::new("DataModel"));
+                let dest = other.root_ref();
+                dom.transfer(top, &mut other, dest);
+                if walk(&other, top, Some(dom.root_ref()))? != depth {
+                    return Err("transferred chain is incomplete".into());
+                }
+                if dom.descendants().count() != 1 || chain.iter().step_by(997).any(|r| dom.get_by_ref(*r).is_some()) {
+                    return Err("source still holds transferred instances".into());
+                }
+            }
+            "transfer_within" => {
+                let mid = chain[depth / 2];
+                dom.transfer_within(mid, dom.root_ref());
+                let n = dom.descendants().count();
+                if n != depth + 1 {
+                    return Err(format!("{n} instances reachable, expected {}", depth + 1));
+                }
+            }
+            "destroy" => {
+                dom.destroy(chain[1.min(depth - 1)]);
+                if chain.iter().skip(1).step_by(991).any(|r| dom.get_by_ref(*r).is_some()) || dom.get_by_ref(chain[depth - 1]).is_some() {
+                    return Err("a descendant of the destroyed instance can still be looked up".into());
+                }
+            }
+            "descendants" => {
+                let n = dom.descendants().count();
+                let m = dom.descendants_of(chain[depth / 2]).count();
+                if n != depth + 1 || m != depth - depth / 2 {
+                    return Err(format!("descendants() yields {n} of {}, descendants_of(middle) {m} of {}", depth + 1, depth - depth / 2));
+                }
+            }
+            _ => {
+                let (root, map) = dom.into_raw();
+                let dom2 = WeakDom::from_raw(root, map);
+                if walk(&dom2, top, Some(root))? != depth {
+                    return Err("chain changed through into_raw / from_raw".into());
+                }
+                drop(dom2);
+            }
+        }
+        Ok(())
+    })();
+    match verdict {
+        Ok(()) => println!("OK"),
+        Err(e) => println!("FAIL {owner}:deep:{op} {e}"),
+    }
+    std::process::exit(0);
+}
+
+fn deep_body(c: &DeepCase, ctx: &mut CaseCtx) -> PropResult {
+    ctx.nontrivial();
+    let out = std::process::Command::new(crate::engine::own_exe())
+        .args(["deepdom", &c.depth.to_string(), &c.op])
+        .stderr(std::process::Stdio::piped())
+        .output()
+        .map_err(|e| Fail::new("harness:deepdom", e.to_string()))?;
+    let text = String::from_utf8_lossy(&out.stdout).to_string();
+    let owner = deep_owner(&c.op);
+    if let Some(rest) = text.trim().strip_prefix("FAIL ") {
+        let (key, msg) = rest.split_once(' ').unwrap_or((rest, ""));
+        return Err(Fail::new(key, format!("chain of {} instances, {}: {msg}", c.depth, c.op)));
+    }
+    if text.trim() == "OK" && out.status.success() {
+        return Ok(());
+    }
+    let err = String::from_utf8_lossy(&out.stderr);
+    let class = if err.contains("overflowed its stack") { "stack-overflow" } else if err.contains("panicked") { "panic" } else { "died" };
+    Err(Fail::new(
+        format!("{owner}:deep:{class}:{}", c.op),
+        format!("{} on a chain of {} instances ended the process ({:?}): {}", c.op, c.depth, out.status, err.lines().rev().take(3).collect::<Vec<_>>().join(" | ")),
+    ))
+}
+
 fn common(ctx: &Ctx, property: &'static str, rule: &str, floors: &[(&str, u64)], with_loads: u8) -> PropertyReport {
     let mut rep = PropertyReport::new(property, "exploration", rule);
     rep.assume("operations are called within their documented preconditions: never on the root, parents/destinations exist, transfer_within never moves a node under its own descendant, builders use fresh referents, clone_multiple takes disjoint subtrees");
@@ -283,6 +457,19 @@ fn common(ctx: &Ctx, property: &'static str, rule: &str, floors: &[(&str, u64)],
             "all histories of length <= {len} over every ordered start tree with <= {nodes} nodes (plus a second 2-node DOM), every applicable operation with every valid argument and 3 builder shapes"
         ));
         rep.push(r);
+    }
+    if sub.runs("deep") {
+        let depth = ctx.cfg.tier.pick(100_000usize, 400_000);
+        let cases: Vec<DeepCase> = ["clone_within", "clone_into_external", "clone_multiple", "transfer", "transfer_within", "destroy", "descendants", "raw"]
+            .iter()
+            .filter(|op| deep_owner(op) == property.to_lowercase())
+            .map(|op| DeepCase { depth, op: op.to_string() })
+            .collect();
+        if !cases.is_empty() {
+            let mut r: SubReport = ctx.run_list("deep", cases, true, deep_body);
+            r.notes.push(format!("each operation on a chain of {depth} nested instances, in a child process (the crate builds and walks such trees iteratively; a recursive implementation overflows the stack)"));
+            rep.push(r);
+        }
     }
     if sub.runs("large") {
         let cases = if ctx.cfg.replay.is_some() { vec![] } else { large_histories(ctx.cfg.tier == crate::engine::Tier::Thorough) };
